@@ -151,7 +151,10 @@ class C07(object):
         rnd.shuffle(order)
         desc = {"entry": "score_and_assign/" + route, "route": route, "ubis": [u.tolist() for u in ubis],
                 "tol": rnd.choice([0.01, 0.02, 0.05, 0.1, 0.25, 0.5]), "order": order, "cfg": cfg,
-                "labels_base": rnd.choice([0, 0, 1, 10])}
+                "labels_base": rnd.choice([0, 0, 1, 10]),
+                # what the label buffer holds on entry: -1 everywhere, or zeros as several callers in the repository start
+                # (with labels numbered from 0 every peak then carries grain 0's label without being indexed by it)
+                "init_label": rnd.choice([-1, -1, 0])}
         if route == "assign":
             # peaks on the detector; each grain gets a translation; UBIs are rebuilt from three of its own g-vectors
             desc["sc"] = g.uniform(0, 2048, n).tolist()
@@ -175,6 +178,9 @@ class C07(object):
                             "o11": 1, "o12": 0, "o21": 0, "o22": rnd.choice([1, -1])}
             desc["tol"] = rnd.choice([0.1, 0.25, 0.4, 0.5])
             desc["basis_peaks"] = [[rnd.randrange(max(n, 1)) for _ in range(3)] for _ in range(ngr)]
+            # the grains' names are the labels: 0..n-1, or what is left of a pruned / re-ordered grain list
+            if rnd.random() < 0.5:
+                desc["grain_names"] = rnd.sample(range(0, 3 * ngr + 4), ngr)
             # the grains move between two assignments (refinement, set_ubi), as in the makemap sequence
             # refine -> save -> assign again: the second assignment must use the grains as they are then
             if rnd.random() < 0.5:
@@ -271,7 +277,7 @@ class C07(object):
         init = 1e6
         base = desc["labels_base"]
         drl = np.full(n, init)
-        lab = np.full(n, -1, np.int32)
+        lab = np.full(n, desc.get("init_label", -1), np.int32)
         rets, sts = [], []
         viol = None
         for gi in desc["order"]:
@@ -288,7 +294,12 @@ class C07(object):
             drl, lab = arr["drlv2"].copy(), arr["labels"].copy()
             rets.append(ret)
         E = np.array([errs(u, gv) for u in ubis]) if ubis else np.zeros((0, n))
-        lab_idx = np.where(lab >= 0, lab - base, -1)
+        presented = (lab >= base) & (lab < base + len(ubis))
+        lab_idx = np.where(presented, lab - base, -1)
+        if viol is None and n and (~presented & (lab != -1) & (lab != desc.get("init_label", -1))).any():
+            k = int(np.argmax(~presented & (lab != -1) & (lab != desc.get("init_label", -1))))
+            viol = {"class": "label-not-a-grain", "key": desc["entry"] + ":label-not-a-grain",
+                    "detail": "peak %d carries label %d: neither a label that was presented, nor -1, nor what the buffer held on entry" % (k, lab[k])}
         return self._finish(desc, E, tol, init, lab_idx, drl, rets, model_sequential(E, tol, init, desc["order"]), sts, viol)
 
     def exec_fight(self, desc, ctx):
@@ -388,8 +399,9 @@ class C07(object):
             rg.scannames = ["s"]
             rg.scantitles["s"] = cf.titles
             rg.scandata["s"] = cf
-            rg.grainnames = list(range(ngr))
-            # grains are presented in the seeded order: grain name j is grain order[j]
+            names = desc.get("grain_names") or list(range(ngr))
+            rg.grainnames = list(names)
+            # grains are presented in the seeded order: the j-th name is grain order[j]
             ah = desc.get("assign_history")
             ga = np.random.default_rng(ah["seed"]) if ah else None
             for j, gi in enumerate(order):
@@ -400,21 +412,22 @@ class C07(object):
                         np.diag(ga.uniform(3, 8, 3)) @ rot(ga).T
                     if np.linalg.det(u0) < 0:
                         u0 = u0 * np.array([[-1.0], [1.0], [1.0]])
-                rg.ubisread[j] = np.ascontiguousarray(u0)
-                rg.translationsread[j] = trans[gi]
+                rg.ubisread[names[j]] = np.ascontiguousarray(u0)
+                rg.translationsread[names[j]] = trans[gi]
             rg.generate_grains()
             rg.assignlabels(quiet=True)
             if ah:
                 for j, gi in enumerate(order):
                     if ah["how"] == "set_ubi":
-                        rg.grains[(j, "s")].set_ubi(ubis[gi])
+                        rg.grains[(names[j], "s")].set_ubi(ubis[gi])
                     else:
-                        rg.grains[(j, "s")] = grain.grain(ubis[gi], translation=trans[gi])
+                        rg.grains[(names[j], "s")] = grain.grain(ubis[gi], translation=trans[gi])
                 rg.assignlabels(quiet=True)
         st = sim.stats()
         lab = np.asarray(rg.scandata["s"].labels).astype(int)
         drl = np.asarray(rg.scandata["s"].drlv2)
-        lab_idx = np.array([order[l] if l >= 0 else -1 for l in lab], int) if n else np.zeros(0, int)
+        byname = {nm: order[j] for j, nm in enumerate(names)}
+        lab_idx = np.array([byname.get(l, -2) if l >= 0 else -1 for l in lab], int) if n else np.zeros(0, int)
         E = np.array([errs(ubis[k], gvs[k]) for k in range(ngr)]) if ngr else np.zeros((0, n))
         # reference g-vectors differ from the compiled ones at the 1e-13 level: widen the ambiguity zone
         viol = None
@@ -437,6 +450,7 @@ class C07(object):
         meas = enginea.run_measures(st, cfg)
         meas["route"] = {"assign": 1}
         meas["assignments_after_the_grains_moved"] = 1 if desc.get("assign_history") else 0
+        meas["grain_names_not_0..n-1"] = 1 if desc.get("grain_names") else 0
         contested = int((((E < tol * tol) & (E < 1.0)).sum(axis=0) >= 2).sum()) if E.size else 0
         meas["contested_peaks"] = contested
         meas["peaks_beyond_one_chunk"] = 1 if n > 4096 else 0
